@@ -751,6 +751,33 @@ func (e *Enc) evalCall(n *CallE, env *Env) (TV, error) {
 			}
 		}
 		return TV{}, fmt.Errorf("unknown global %s", name)
+	case "globalVal":
+		name, ok := smtStringLit(args[0].S)
+		if !ok {
+			return TV{}, fmt.Errorf("globalVal needs a literal")
+		}
+		for _, sp := range e.w.prog.AllPackages() {
+			for mn, m := range sp.Members {
+				if g, ok := m.(*ssa.Global); ok && sp.Pkg.Name()+"."+mn == name {
+					p := e.placeOf(g)
+					t := deref(g.Type())
+					return TV{e.placeLoad(env.st, p), e.sortOf(t), t}, nil
+				}
+			}
+		}
+		return TV{}, fmt.Errorf("unknown global %s", name)
+	case "typeIs": // typeIs(v, "<type string>"): dynamic type test on an interface value
+		name, ok := smtStringLit(args[1].S)
+		if !ok {
+			return TV{}, fmt.Errorf("typeIs needs a literal type string")
+		}
+		id, ok := e.w.so.typeIDs[name]
+		if !ok {
+			id = 100 + len(e.w.so.typeIDs)
+			e.w.so.typeIDs[name] = id
+			e.w.so.typeIDList = append(e.w.so.typeIDList, name)
+		}
+		return TV{fmt.Sprintf("(and ((_ is VRef) %s) (= (vtype %s) %d))", args[0].S, args[0].S, id), sBool, tBool}, nil
 	case "isMapStringAny":
 		mt := types.NewMap(types.Typ[types.String], types.NewInterfaceType(nil, nil))
 		return TV{fmt.Sprintf("(and ((_ is VRef) %s) (= (vtype %s) %d))", args[0].S, args[0].S, e.w.so.typeID(mt)), sBool, tBool}, nil
